@@ -17,7 +17,7 @@ import (
 
 type streamDriver struct{ t *stream.C04Table }
 
-func openStream(dir string, freshEpoch uint64, _ bool) driver {
+func openStream(dir string, freshEpoch uint64, _, _ bool) driver {
 	return &streamDriver{t: stream.C04Open(dir, freshEpoch)}
 }
 
